@@ -13,3 +13,8 @@ func (e *ThreadPoolExecutor) verifPoint(name string) {
 		h(e, name)
 	}
 }
+
+// VerifState reads the executor's state word.
+func (e *ThreadPoolExecutor) VerifState() int32 {
+	return e.state.Get()
+}
